@@ -98,7 +98,7 @@ def main():
         chk.sample({"family": "seqcase3", "sizes_by_depth": {k: v.get("S2") for k, v in table.get("seqcase3", {}).items()}})
         corr.close()
     chk.obligation("corr:fun2core+shrink on families", "correspondence", chk.corr["disagreements"] == 0, "%d compared, %d disagreements" % (chk.corr["compared"], chk.corr["disagreements"]))
-    if (not proofs_ok or chk.corr["disagreements"]) and not found:
+    if (not proofs_ok or chk.corr["disagreements"]) and not chk.has_failing_input():
         what = [("%s (%s): %s" % (n, r, dd)) for n, r, ok, dd in chk.obligations if not ok]
         what += [json.dumps(x)[:300] for x in chk.model_disagreements[:5]]
         chk.violation("C19:unproved", "proof obligations or correspondence broken, no blow-up found: " + "; ".join(what)[:600], "unproved.txt", "\n".join(what) + "\n" + plog[-3000:], found_input=False)
